@@ -1,5 +1,6 @@
 import QuinnModel.Data.Dedup
 import QuinnModel.Gen.Conn
+import QuinnModel.Gen.Conn2
 /-
 Skeleton model of the receive pipeline of one packet-number space
 (quinn-proto/src/connection/packet_crypto.rs `unprotect_header` stateless-reset test, connection/mod.rs
@@ -98,3 +99,86 @@ def processedPns (os : List (Pkt × Out)) : List Nat :=
   os.filterMap fun (_, o) => match o with | .processed n => some n | _ => none
 
 end QM.Receive
+
+/-
+Closed-connection rows (connection/mod.rs `handle_packet` for a connection whose state is Closed, Draining or
+Drained, the `State::Closed(_)` / `State::Draining | State::Drained` arms of `process_decrypted_packet`, and the
+error tail of `handle_packet`: `self.error = Some(..)`, `self.state = ..`, `self.close = remote == self.path.remote`).
+Enlarged state: lifecycle state, pending error, close-owed flag, CONNECTION_CLOSE frames counted.
+Whether an unprotected packet (Retry / Version Negotiation) is discarded before its bytes are parsed as frames
+is GENERATED from the source (`Gen.closedDiscardsUnprotected`); the shape of the arms is anchored by
+`Gen.closedArmShapeChecked`.
+-/
+namespace QM.Receive.Closed
+open QM.Receive
+
+inductive LSt where
+  | closed | draining | drained
+deriving Repr, DecidableEq
+
+structure CC where
+  st : LSt
+  /-- `self.error.is_some()`: `poll()` will report ConnectionLost -/
+  error : Bool
+  /-- `self.close`: a CONNECTION_CLOSE packet is owed -/
+  close : Bool
+  dedup : Dedup.Dedup
+  authFailures : Nat
+  /-- `stats.frame_rx.connection_close` -/
+  closeFramesRx : Nat
+deriving Repr, DecidableEq
+
+structure CPkt where
+  kind : Kind
+  pn : Nat
+  /-- AEAD opens under the keys the connection selects (protected packets) -/
+  authentic : Bool
+  /-- after a successful AEAD open: reserved header bits are zero and no key-update error -/
+  decryptOk : Bool
+  /-- the (decrypted, or for unprotected packets raw) payload is empty -/
+  payloadEmpty : Bool
+  /-- parsing the payload as frames meets a CONNECTION_CLOSE -/
+  hasClose : Bool
+  /-- the datagram came from the path's address -/
+  fromPath : Bool
+  /-- recognised as a stateless reset by `unprotect_header` -/
+  reset : Bool
+deriving Repr, DecidableEq
+
+/-- tail of `handle_packet` when nothing is wrong: a Closed connection owes a CONNECTION_CLOSE to its path -/
+def okTail (c : CC) (p : CPkt) : CC :=
+  match c.st with
+  | .closed => { c with close := p.fromPath }
+  | .draining => c
+  | .drained => c
+
+/-- a transport error raised in a closed state: dropped (`Gen.closedIgnoresLateErrors`), else the error tail
+    `self.error = Some(..)`, `self.state = State::closed(err)`, `self.close = remote == self.path.remote` -/
+def errTail (c : CC) (p : CPkt) : CC :=
+  if Gen.closedIgnoresLateErrors then okTail c p
+  else { c with error := true, st := .closed, close := p.fromPath }
+
+/-- `process_decrypted_packet` in a closed state followed by the tail of `handle_packet` -/
+def process (c : CC) (p : CPkt) : CC :=
+  match c.st with
+  | .closed =>
+    if p.payloadEmpty then errTail c p
+    else if p.hasClose then { c with st := .draining, closeFramesRx := c.closeFramesRx + 1 }
+    else okTail c p
+  | .draining => c
+  | .drained => c
+
+def step (c : CC) (p : CPkt) : CC :=
+  if p.reset then { c with error := true, st := .drained }
+  else match p.kind with
+    | .protectedPkt =>
+      if !p.authentic then { c with authFailures := c.authFailures + 1 }
+      else if !p.decryptOk then errTail c p
+      else
+        let (d', dup) := Dedup.insert c.dedup p.pn
+        let c := { c with dedup := d' }
+        if dup then c else process c p
+    | .retry => if Gen.closedDiscardsUnprotected then c else process c p
+    | .versionNegotiation => if Gen.closedDiscardsUnprotected then c else process c p
+
+end QM.Receive.Closed
